@@ -409,7 +409,7 @@ func init() {
 }
 
 func vfKeyFiltered(c *vfSCase, k []byte) bool {
-	for _, p := range append([]string{config.CheckpointKey, config.NamespacePrefixKey}, c.fpre...) {
+	for _, p := range append([]string{config.CheckpointKey, config.NamespacePrefixKey, "redis-gunyu-bisync:"}, c.fpre...) {
 		if p != "" && bytes.HasPrefix(k, []byte(p)) {
 			return true
 		}
@@ -681,7 +681,7 @@ func vfGenCase(r *vfutil.Rand, idx int) *vfSCase {
 		}
 	}
 	// stream
-	keys := []string{"k1", "k2", "a", "tmp:1", "x9", "bl", "redis-gunyu-checkpoint", "{t}k", "\xff\xfe", ""}
+	keys := []string{"k1", "k2", "a", "tmp:1", "x9", "bl", "redis-gunyu-checkpoint", "{t}k", "\xff\xfe", "", "redis-gunyu-bisync:m", "redis-gunyu-bisync"}
 	val := func() []byte {
 		switch r.Intn(4) {
 		case 0:
